@@ -117,6 +117,8 @@ def apply_contract(it, c, fn, args, kwargs, line):
         env.set(name, spec_eval(it, ex, env))
     for name, ex in c.let.items():
         env.set(name, spec_eval(it, ex, env))
+    for r in c.axioms:
+        ctx.assume(spec_bool(it, r, env))
     # 1. precondition
     for i, r in enumerate(c.requires):
         g = spec_bool(it, r, env)
